@@ -1,5 +1,6 @@
 """C07 -- however a connection ends, it is torn down completely and exactly once (io.rs life cycle)."""
 import gen_iostate as G
+from props import sink_common as SC
 from props.base import Part
 
 RULE = ("scenarios for the real io::Dispatcher (engine iostate): peer writes (complete frames, undecodable bytes), "
@@ -22,8 +23,9 @@ PARTIAL = [
     "actual cancellation of handler tasks, completion of the io shutdown and absence of hangs inside ntex "
     "(ntex-io, ntex-service, ntex-util Condition) are observed by the harness only; the theorems are about the "
     "dispatcher's state machine (Model/IoState.v)",
-    "`every pending send or readiness future resolves with a disconnected error` is the Sink model's part "
-    "(engines sink3/sink5), not covered here; payload readers are the inbound model's part",
+    "`every pending send or readiness future resolves with a disconnected error` is checked on the real sinks "
+    "(engines sink3/sink5, closing schedules) against Model/Sink.v and by the peer's-view clause 71; the sink-level "
+    "theorems are those of Props/C06.v (C06_mismatch_fails_pending); payload readers: Props/C10pl.v (error observed)",
     "recorded findings: the control service's own readiness failure ends the task without a Stop "
     "(C07_stop_once_refuted, signature control-readiness-error-no-stop); a later handler error overwrites an "
     "earlier one before poll_service reads it (C07_stop_reason_first_refuted, signature handler-error-overwritten)",
@@ -132,15 +134,26 @@ def parts(tier, rng):
     out = []
     for name, rule, cases in G.iostate_cases(rng, tier):
         out.append(IoPart(name, "iostate", cases, shards=16, rule=rule))
+    # "every pending send or readiness future resolves with a disconnected error": the real v3/v5 sinks, schedules
+    # that end the connection (close, force_close, protocol error) with senders parked / just woken / awaiting acks
+    for p in SC.make_parts(tier, rng, {7}, closing=True):
+        p.name = "sink-" + p.name
+        p.rule = ("random sink schedules, optionally an acknowledgement that wakes a parked sender, then close / "
+                  "force_close / a mismatching acknowledgement, then poll rounds of every task")
+        out.append(p)
     return out
 
 
 def replay_parts(rp):
+    if rp.get("engine", "").startswith("sink"):
+        return SC.replay_parts(rp, {7})
     return [IoPart("replay", rp.get("engine", "iostate"), [rp["case"]], shards=1)]
 
 
 def known_signature(part, case, impl_obs, oracle):
     """recorded deviations of the current tree (see known_findings.json); anything else is None"""
+    if isinstance(part, SC.SinkPart):
+        return None
     f = oracle.split(",")
     if len(f) < 3 or f[0] != "0":
         return None
@@ -169,6 +182,8 @@ CLAUSES = {
 
 
 def clause_text(part, oracle):
+    if isinstance(part, SC.SinkPart):
+        return SC.clause_text(part, oracle)
     f = oracle.split(";")[0].split(",")
     return "%s (operation %s)" % (CLAUSES.get(f[1] if len(f) > 1 else "", "property violated"),
                                   f[2] if len(f) > 2 else "?")
